@@ -294,6 +294,48 @@ pub fn run(ctx: &Ctx) -> i32 {
         }
         acc = acc.merge(e);
     }
+    // very large trees: 4095..131073 leaves, balanced (node count) and as chains (depth), with the
+    // deciding leaf first / last / absent, and built of actions only (occurrence counters)
+    {
+        use speclib::trees::{balanced, left_chain, on_big_stack, Op};
+        let huge = on_big_stack(move || {
+            let mut h = Acc::new();
+            let t = || Expr::Test(Test::True);
+            let print = || Expr::Action(Action::Print);
+            let framed = || Expr::Action(Action::Print0);
+            for n in [4095usize, 4096, 4097, 5000, 32768, 65535, 65536, 65537, 70000, 131072, 131073] {
+                for op in [Op::Or, Op::And, Op::List] {
+                    let tests: Vec<Expr> = (0..n).map(|_| t()).collect();
+                    let prints: Vec<Expr> = (0..n).map(|_| print()).collect();
+                    let mut last_action = tests.clone();
+                    last_action.push(print());
+                    let mut last_framed = tests.clone();
+                    last_framed.push(framed());
+                    let mut first_framed = vec![framed()];
+                    first_framed.extend(prints.iter().cloned());
+                    for leaves in [&tests, &prints, &last_action, &last_framed, &first_framed] {
+                        check(&balanced(op, leaves), &mut h);
+                        if n <= 5000 {
+                            check(&left_chain(op, leaves), &mut h);
+                        }
+                    }
+                    // n negations / parentheses above the deciding leaf
+                    if n <= 5000 {
+                        let mut e = framed();
+                        for _ in 0..n {
+                            e = Expr::not(e);
+                        }
+                        check(&Expr::or(print(), e), &mut h);
+                    }
+                }
+            }
+            h
+        });
+        match huge {
+            Some(h) => acc = acc.merge(h),
+            None => acc.violate(Violation::new("C19:panic:very-large-tree", "the helpers (or the conversion to the subject's tree) died on a tree of 4095..131073 leaves".to_string(), json!({"kind": "huge"}))),
+        }
+    }
     // the same node queried before and after it is changed in place (through the public Rc), and
     // large trees dropped and rebuilt in a loop (allocations get reused)
     {
